@@ -508,6 +508,9 @@ func rawScripted0(p rawProto) []rawCfg {
 		return []rawCfg{
 			mk(id, "conn", "conn", "inj p1 ok", "inj p2 ok", "recv", "recv", "send ok", "send ok", "send unknown", "send nohdr", "drop p1", "send gone", "send ok"),
 			mk(func(c *rawCfg) { c.SQ, c.SendExp = 1, 2*sec }, "conngated", "send ok", "send ok", "send ok", "adv 2s", "drop p1", "send ok"),
+			// a Send that waits for room in a slow peer's queue (no deadline) keeps nobody else from using the socket:
+			// Recv runs into its own deadline meanwhile, options can be changed; the peer's departure ends the wait
+			mk(func(c *rawCfg) { c.SQ, c.RecvExp = 1, sec }, "conngated", "send ok", "send ok", "send ok", "recv", "adv 0.999999s", "adv 1us", "rq 4", "recv", "drop p1", "adv 1s"),
 		}
 	}
 	return []rawCfg{
